@@ -38,6 +38,19 @@ Theorem C14_flagged_on_retry s t l more :
 Proof. exact (flagged_on_retry s t l more). Qed.
 Print Assumptions C14_flagged_on_retry.
 
+(* what does hold of "stops all further sending": while the in-memory status is misbehaving the notification path
+   skips the tower (no request, no state change) and retrytower refuses it *)
+Theorem C14_notification_skips_misbehaving s l t rp :
+  rev_tower s l t Misbehaving rp = (s, None) \/ rev_tower s l t Misbehaving rp = (s, Some (SClient Site_poisoned)).
+Proof. exact (rev_tower_skips_misbehaving s l t rp). Qed.
+Print Assumptions C14_notification_skips_misbehaving.
+
+Theorem C14_retry_refuses_misbehaving s t su :
+  aget (c_towers (f_c s)) t = Some su -> su_status su = Misbehaving -> aget (c_retriers (f_c s)) t = None ->
+  f_manual_retry s t = (s, OErr E_not_retryable) \/ f_manual_retry s t = (s, OPanic (SClient Site_poisoned)).
+Proof. exact (manual_retry_refuses_misbehaving s t su). Qed.
+Print Assumptions C14_retry_refuses_misbehaving.
+
 (* "... and stops all further sending to it": REFUTED.
    (1) genuine defect replayed on the real plugin: `registertower` against a flagged tower that refuses the connection
        overwrites the misbehaving status; the next revocation is handed to a retrier which sends it to the tower;
